@@ -24,7 +24,7 @@ SPEC = {
     "assumptions": ["applications send lower-case header names (ASGI requirement) and a content-length that matches the body when they send one"],
 }
 
-STATUSES = [200, 201, 204, 301, 304, 400, 404, 500, 599]
+STATUSES = [200, 201, 204, 205, 301, 304, 400, 404, 500, 599]
 HOP = {"connection", "transfer-encoding"}
 SERVER_OWN = {"date", "server", "alt-svc"}
 
@@ -55,19 +55,42 @@ def gen_case(ctx: Ctx) -> dict:
     elif hv == "custom":
         headers += [(b"content-type", b"text/plain"), (b"x-empty", b"")]
     pace = rng.choice(["immediate", "immediate", "late_ack", "paused"])
-    return {"family": "response", "proto": proto, "method": method, "status": status, "chunking": cls, "chunks": [b2s(c) for c in chunks],
+    case = {"family": "response", "proto": proto, "method": method, "status": status, "chunking": cls, "chunks": [b2s(c) for c in chunks],
             "headers": [[b2s(n), b2s(v)] for n, v in headers], "header_variant": hv, "pace": pace, "worker": rng.choice(["asyncio", "trio"]),
             "te": proto == "2" and rng.random() < 0.3}
+    if proto == "2":
+        # the client's flow-control shape: advertised stream window (smaller / larger than the 65535 byte connection
+        # window, which SETTINGS cannot change), frame size, concurrent streams sharing the connection window, and
+        # how it acknowledges: h2's automatic policy at once or late, or explicit WINDOW_UPDATE frames for the
+        # connection and the stream in either order, or for the connection only
+        case["pace"] = rng.choice(H2_PACES)
+        case["initial_window"] = rng.choice([None, None, 1 << 20, 200000, 20000, 1000])
+        case["max_frame"] = rng.choice([None, None, 32768])
+        case["streams"] = rng.choice([1, 1, 1, 2, 3])
+        if case["pace"] == "conn_only" and (case["initial_window"] or 65535) < body_len:
+            case["initial_window"] = 1 << 20           # without stream-level updates the stream window must hold the body
+        if not suppress and rng.random() < 0.25:
+            case["trailers"] = rng.choice([[[["x-trailer", "t1"]]], [[["x-trailer", "t1"], ["x-sum", "2"]]], [[["x-a", "1"]], [["x-b", "2"]]]])
+    return case
+
+
+H2_PACES = ["immediate", "immediate", "late_ack", "paused", "conn_first", "stream_first", "conn_only"]
 
 
 def app_msgs(case: dict) -> List[dict]:
     chunks = [c.encode("latin1") for c in case["chunks"]]
     headers = [(n.encode("latin1"), v.encode("latin1")) for n, v in case["headers"]]
     msgs: List[dict] = [{"type": "http.response.start", "status": case["status"], "headers": headers}]
+    trailers = case.get("trailers")
+    if trailers:
+        msgs[0]["trailers"] = True
     if not chunks:
         msgs.append({"type": "http.response.body"})
     for i, c in enumerate(chunks):
         msgs.append({"type": "http.response.body", "body": c, "more_body": i < len(chunks) - 1})
+    for i, t in enumerate(trailers or []):
+        msgs.append({"type": "http.response.trailers", "headers": [(n.encode("latin1"), v.encode("latin1")) for n, v in t],
+                     "more_trailers": i < len(trailers) - 1})
     return msgs
 
 
@@ -77,41 +100,79 @@ def run_case(case: dict) -> dict:
     req_headers = [(b"host", b"x")] + ([(b"te", b"trailers")] if case["te"] else [])
     box: Dict[str, Any] = {}
     if case["proto"] == "2":
+        n_streams = case.get("streams", 1)
+        pace = case["pace"]
+
         async def client(io):
-            c = C.H2Client(auto_window=(case["pace"] != "late_ack"))
+            c = C.H2Client(initial_window=case.get("initial_window"), max_frame=case.get("max_frame"), auto_window=(pace in ("immediate", "paused")))
             box["c"] = c
-            if case["pace"] == "paused":
+            if case.get("initial_window") is not None or case.get("max_frame") is not None:
+                # the SETTINGS exchange first: h2 (client side) raises its inbound frame-size limit only between two
+                # `receive_data` calls, so the server's acknowledgement must not share a read with a larger frame
+                await c.pump(io)
+            if pace == "paused":
                 io.pause_writes()
-            sid = c.request(C.h2_headers(case["method"], "/r", extra=req_headers[1:]))
-            box["sid"] = sid
+            sids = [c.request(C.h2_headers(case["method"], "/r", extra=req_headers[1:])) for _ in range(n_streams)]
             await c.pump(io)
-            if case["pace"] == "paused":
+            if pace == "paused":
                 await io.sleep(1.0)
                 await io.resume_writes()
                 await c.pump(io)
-            if case["pace"] == "late_ack":
-                for _ in range(40):
-                    await io.sleep(0.5)
-                    if not c.unacked:
-                        break
-                    for s_id, n in list(c.unacked.items()):
-                        if n:
-                            c.conn.acknowledge_received_data(n, s_id)
-                    c.unacked.clear()
+            if pace not in ("immediate", "paused"):
+                def done() -> bool:
+                    return bool(c.error) or all(c.streams[x]["ended"] or c.streams[x]["reset"] is not None for x in sids)
+
+                async def credit(level: str, owed: Dict[int, int]) -> None:
+                    """explicit WINDOW_UPDATE frames for what was received and not yet acknowledged"""
+                    if level == "conn":
+                        if sum(owed.values()):
+                            c.conn.increment_flow_control_window(sum(owed.values()))
+                    else:
+                        for s_id, n in owed.items():
+                            if n and not (c.streams[s_id]["ended"] or c.streams[s_id]["reset"] is not None):
+                                c.conn.increment_flow_control_window(n, s_id)
                     await c.pump(io)
+
+                for _ in range(200):
+                    await io.sleep(0.5)
+                    if done():
+                        break
+                    if not any(c.unacked.values()):
+                        continue
+                    # this round's credit is fixed now; what arrives while it is being sent waits for the next round
+                    owed, c.unacked = c.unacked, {}
+                    if pace == "late_ack":
+                        for s_id, n in owed.items():
+                            if n:
+                                c.conn.acknowledge_received_data(n, s_id)
+                        await c.pump(io)
+                    elif pace == "conn_first":
+                        await credit("conn", owed)
+                        await io.sleep(0.5)
+                        await credit("stream", owed)
+                    elif pace == "stream_first":
+                        await credit("stream", owed)
+                        await io.sleep(0.5)
+                        await credit("conn", owed)
+                    else:       # conn_only: the stream window is large enough for the whole body
+                        await credit("conn", owed)
+                await c.pump(io)
             await c.pump(io)
             await io.sleep(2.0)
             await c.pump(io)
-            return {"summary": c.summary(), "sid": sid}
+            return {"summary": c.summary(), "sids": sids}
         res = R.RUNNERS[case["worker"]]({}, "h2", client, [script], tail=20)
-        cr = res.get("client_result") or {"summary": {"streams": {}, "error": "client did not finish"}, "sid": None}
-        st = cr["summary"]["streams"].get(str(cr["sid"]), {})
+        cr = res.get("client_result") or {"summary": {"streams": {}, "error": "client did not finish"}, "sids": []}
         c_error = cr["summary"]["error"]
-        heads = st.get("headers")
-        view = {"status": None if heads is None else int(dict(heads)[":status"]),
-                "headers": None if heads is None else [h for h in heads if h[0] != ":status"],
-                "body": st.get("data", ""), "complete": bool(st.get("ended")), "reset": st.get("reset"), "trailers": st.get("trailers"),
-                "error": c_error, "frames": st.get("frames", [])}
+        views = []
+        for sid in cr["sids"] or [None]:
+            st = cr["summary"]["streams"].get(str(sid), {})
+            heads = st.get("headers")
+            views.append({"status": None if heads is None else int(dict(heads)[":status"]),
+                          "headers": None if heads is None else [h for h in heads if h[0] != ":status"],
+                          "body": st.get("data", ""), "complete": bool(st.get("ended")), "reset": st.get("reset"), "trailers": st.get("trailers"),
+                          "error": c_error, "frames": st.get("frames", []), "sid": sid})
+        view = views[0]
     else:
         async def client(io):
             if case["pace"] == "paused":
@@ -127,8 +188,13 @@ def run_case(case: dict) -> dict:
         r0 = finals[0] if finals else {}
         view = {"status": r0.get("status"), "headers": r0.get("headers"), "body": r0.get("body", ""), "complete": bool(r0.get("complete")),
                 "n_responses": len(finals), "trailers": r0.get("trailers"), "error": p["error"], "trailing": p["trailing"]}
-    return {"view": view, "res": {k: res[k] for k in ("error", "loop_errors", "exceptions", "access", "closed_at", "handler_done", "client_error")},
+        views = [view]
+    return {"view": view, "views": views, "res": {k: res[k] for k in ("error", "loop_errors", "exceptions", "access", "closed_at", "handler_done", "client_error")},
             "app_send": res["apps"][0]["send"] if res["apps"] else None}
+
+
+def flat_trailers(case: dict) -> List[List[str]]:
+    return [list(h) for t in (case.get("trailers") or []) for h in t]
 
 
 def check(ctx: Ctx, cases: List[dict]) -> None:
@@ -145,56 +211,107 @@ def check(ctx: Ctx, cases: List[dict]) -> None:
     model = ctx.model(reqs)
     for i, (case, o) in enumerate(zip(cases, obs)):
         ctx.evaluations += 1
-        v = o["view"]
         sclass = case["status"] // 100
         suppress = case["method"] == "HEAD" or case["status"] in (204, 304)
         ctx.count("proto", case["proto"])
         ctx.count("chunking", case["chunking"])
         ctx.count("pace", case["pace"])
         ctx.count("status", case["status"])
+        if case["proto"] == "2":
+            ctx.count("h2.initial_window", case.get("initial_window"))
+            ctx.count("h2.streams", case.get("streams", 1))
+            ctx.count("h2.trailers", f"{len(case.get('trailers') or [])} te={int(bool(case['te']))}")
         if case["chunks"] or suppress:
-            ctx.distinct([case["proto"], case["method"], sclass, case["header_variant"], case["chunking"], case["pace"], case["worker"]])
+            ctx.distinct([case["proto"], case["method"], sclass, case["header_variant"], case["chunking"], case["pace"], case["worker"],
+                          case.get("initial_window"), case.get("streams", 1), bool(case.get("trailers"))])
         ctx.sample({k: (v2 if k != "chunks" else [len(c) for c in v2]) for k, v2 in case.items()}, cap=3)
         sig = {"family": "response", "proto": case["proto"]}
         if o["res"]["client_error"] or o["res"]["error"] or o["res"]["loop_errors"]:
             ctx.violation("handler_error", case, o["res"], {**sig, "kind": "internal"})
             continue
         want_body = "" if suppress else "".join(case["chunks"])
-        # --- monitor ---
-        if v.get("error"):
-            ctx.violation("client_parse_error", case, v, sig)
-        if v["status"] != case["status"]:
-            ctx.violation("status", case, v, sig)
-        if not v["complete"] or v.get("n_responses", 1) != 1:
-            ctx.violation("end_exactly_once", case, v, sig)
-        if v["body"] != want_body:
-            ctx.violation("body", case, {"got_len": len(v["body"]), "want_len": len(want_body), "view": {k: v[k] for k in v if k != "body"}},
-                          {**sig, "suppress": suppress})
-        if v["headers"] is not None:
-            got = [h for h in v["headers"] if h[0].lower() not in HOP]
-            app = [[n.lower(), val.strip()] for n, val in case["headers"]]
-            if got[:len(app)] != app or any(h[0] not in SERVER_OWN for h in got[len(app):]):
-                ctx.violation("headers", case, {"got": v["headers"], "app": app}, sig)
-        if v.get("trailers"):
-            ctx.violation("trailers_unrequested", case, v["trailers"], sig)
+        want_trailers = flat_trailers(case) if (case["proto"] == "2" and case["te"]) else []
+        if want_trailers:
+            # the input class of known finding F80 (everything that goes wrong on such a connection has that one cause)
+            sig["trailers_with_te"] = True
+        if len(o["views"]) != case.get("streams", 1):
+            ctx.violation("end_exactly_once", case, {"streams_seen": len(o["views"])}, sig)
+        for v in o["views"]:
+            # --- monitor (every concurrent stream carries the same request, so the same response is due on each) ---
+            brief = {k: v[k] for k in v if k != "body"}
+            if v.get("error"):
+                ctx.violation("client_parse_error", case, brief, sig)
+            if v["status"] != case["status"]:
+                ctx.violation("status", case, brief, sig)
+            if not v["complete"] or v.get("n_responses", 1) != 1:
+                ctx.violation("end_exactly_once", case, {"got_len": len(v["body"]), "want_len": len(want_body), "view": brief}, sig)
+            if v["body"] != want_body:
+                ctx.violation("body", case, {"got_len": len(v["body"]), "want_len": len(want_body), "view": brief},
+                              {**sig, "suppress": suppress})
+            if v["headers"] is not None:
+                got = [h for h in v["headers"] if h[0].lower() not in HOP]
+                app = [[n.lower(), val.strip()] for n, val in case["headers"]]
+                if got[:len(app)] != app or any(h[0] not in SERVER_OWN for h in got[len(app):]):
+                    ctx.violation("headers", case, {"got": v["headers"], "app": app}, sig)
+            if v.get("trailers") and not want_trailers:
+                ctx.violation("trailers_unrequested", case, v["trailers"], sig)
+            elif want_trailers and (v.get("trailers") or []) != want_trailers:
+                # the client asked for trailers (te: trailers, HTTP/2) and the application sent them
+                ctx.violation("trailers_lost", case, {"got": v.get("trailers"), "want": want_trailers, "view": brief}, {**sig, "got": bool(v.get("trailers"))})
+            # --- correspondence with the Lean view ---
+            if model is not None:
+                ctx.disagreements_checked += 1
+                m = model[i].get("ok")
+                ok = m is not None and len(m["heads"]) == 1
+                if ok and want_trailers and [h for t in m["trailers"] for h in t] == want_trailers and (v.get("trailers") or []) != want_trailers:
+                    # known finding F80 (reported by the monitor above): the stream model hands the protocol the trailers,
+                    # the H2 protocol layer - not part of this model - loses them and damages the connection; what the
+                    # client then sees says nothing about the stream model
+                    ctx.count("correspondence", "client view not compared (F80 input)")
+                    continue
+                ok = ok and m["heads"][0][0] == v["status"] and m["body"] == v["body"] and m["ends"] == (1 if v["complete"] else 0)
+                if ok and v["headers"] is not None:
+                    got = [h for h in v["headers"] if h[0].lower() not in HOP]
+                    ok = got[:len(m["heads"][0][1])] == m["heads"][0][1]
+                if ok:
+                    # the stream model hands the protocol exactly the trailers the statement allows
+                    ok = [h for t in m["trailers"] for h in t] == want_trailers
+                if not ok:
+                    ctx.disagree("stream.http_view", case, {k: (m[k] if k != "body" else len(m[k])) for k in (m or {})},
+                                 {k: (v[k] if k != "body" else len(v[k])) for k in v})
         if o["app_send"] is not None and any(r[2] != "ok" for r in o["app_send"]):
             ctx.violation("valid_send_raised", case, o["app_send"], sig)
-        # --- correspondence with the Lean view ---
-        if model is not None:
-            ctx.disagreements_checked += 1
-            m = model[i].get("ok")
-            ok = m is not None and len(m["heads"]) == 1 and m["heads"][0][0] == v["status"] and m["body"] == v["body"] and m["ends"] == (1 if v["complete"] else 0)
-            if ok and v["headers"] is not None:
-                got = [h for h in v["headers"] if h[0].lower() not in HOP]
-                ok = got[:len(m["heads"][0][1])] == m["heads"][0][1]
-            if not ok:
-                ctx.disagree("stream.http_view", case, {k: (m[k] if k != "body" else len(m[k])) for k in (m or {})},
-                             {k: (v[k] if k != "body" else len(v[k])) for k in v})
+
+
+def flow_corpus() -> List[dict]:
+    """deterministic: the client shapes in which the connection window, not the stream window, is what stops the response
+    (stream windows larger than 65535; several streams sharing the connection window), every acknowledgement style, and
+    trailers with / without `te: trailers`"""
+    base = {"family": "response", "proto": "2", "method": "GET", "status": 200, "headers": [["x-a", "1"]], "header_variant": "custom1", "te": False}
+    big = [b2s(c) for c in (b"a" * 10000, b"", b"b" * 50000, b"c", b"d" * 70000, b"e" * 20000)]
+    win = [b2s(b"w" * 70000), "zzz"]
+    out = []
+    k = 0
+    for pace in ("late_ack", "conn_first", "stream_first", "conn_only"):
+        for iw, streams, chunks, cls in ((1 << 20, 1, big, "big_window"), (None, 3, win, "big_window"), (20000, 2, win, "big_window"), (1 << 20, 2, win, "big_window")):
+            if pace == "conn_only" and iw != 1 << 20:
+                continue
+            k += 1
+            out.append({**base, "chunking": cls, "chunks": chunks, "pace": pace, "worker": "asyncio" if k % 2 else "trio", "initial_window": iw,
+                        "max_frame": None if k % 3 else 32768, "streams": streams})
+    for te in (True, False):
+        for tr in ([[["x-trailer", "t1"], ["x-sum", "2"]]], [[["x-a", "1"]], [["x-b", "2"]]]):
+            k += 1
+            out.append({**base, "te": te, "chunking": "tiny", "chunks": ["ab", "c"], "pace": "immediate", "worker": "asyncio" if k % 2 else "trio",
+                        "initial_window": None, "max_frame": None, "streams": 1, "trailers": tr})
+    out.append({**base, "te": True, "chunking": "big_window", "chunks": win, "pace": "late_ack", "worker": "trio", "initial_window": None, "max_frame": None,
+                "streams": 1, "trailers": [[["x-trailer", "after-big-body"]]]})
+    return out
 
 
 def run(ctx: Ctx) -> None:
     n = ctx.budget(500, 8000)
-    cases = [gen_case(ctx) for _ in range(n)]
+    cases = flow_corpus() + [gen_case(ctx) for _ in range(n)]
     # boundary corpus: every status x method on every protocol once (small bodies)
     for proto in ("1.0", "1.1", "2"):
         for status in STATUSES:
